@@ -72,6 +72,8 @@ def jobs_list(thorough):
         add("whfast/default/c%d/recalc x3 while unsynchronized" % c, ["whfast", 0, c, 0, "recalc"], "whfast_recalc_word %d" % c, "wh", dts=both if c == 0 else (DT,))
     for t in (1, 6):
         add("saba/0x%x/recalc x3 while unsynchronized" % t, ["saba", t, 0, 0, "recalc"], "saba_recalc_word %d" % t, "wh", dts=both if t == 6 else (DT,))
+    add("whfast/default/c0/remove a particle mid-run (safe_mode 0)", ["whfast", 0, 0, 0, "remove"], "whfast_word_unsync2 ++ whfast_word_unsync2", "wh_f", dts=both)
+    add("saba/0x6/remove a particle mid-run (safe_mode 0)", ["saba", 6, 0, 0, "remove"], "saba_word_unsync 6 2 ++ saba_word_unsync 6 2", "wh_f")
     add("mercurius/step", ["mercurius", 0, 0, 0, "step"], "hybrid_word", "wh3h", dts=both)
     add("mercurius/unsync", ["mercurius", 0, 0, 0, "unsync"], "hybrid_word_unsync", "wh3h")
     for pm in (0, 1, 2):
@@ -121,6 +123,21 @@ def canon(ops, kind, extra, dt):
     """trace -> list of (letter, coefficient, v-coefficient) as exact Fractions of the traced doubles; or (None, why)."""
     fdt = F(dt)
     out = []
+    if kind == "wh_f":      # as "wh", but reb_integrator_whfast_from_inertial calls are kept as letter "F"
+        last_k = None
+        for op, a in ops:
+            if op == "K":
+                out.append((False, F(a[0]) / fdt, F(0))); last_k = a[0]
+            elif op == "I":
+                out.append((True, F(a[0]) / fdt, F(0)))
+            elif op == "F":
+                out.append(("F", F(0), F(0)))
+            elif op == "C":
+                if last_k is None or a[0] != last_k:
+                    return None, "com step %r does not follow a kepler step with the same argument" % a
+            elif op != "J":
+                return None, "unexpected operator %s" % op
+        return out, ""
     if kind == "wh":
         last_k = None
         for op, a in ops:
@@ -131,8 +148,8 @@ def canon(ops, kind, extra, dt):
             elif op == "C":
                 if last_k is None or a[0] != last_k:
                     return None, "com step %r does not follow a kepler step with the same argument" % a
-            elif op == "J":
-                pass      # jump step: identity in Jacobi / barycentric coordinates (the only ones traced here)
+            elif op in ("J", "F"):
+                pass      # jump step: identity in Jacobi / barycentric coordinates (the only ones traced here); F: from_inertial
             else:
                 return None, "unexpected operator %s" % op
         return out, ""
@@ -148,7 +165,7 @@ def canon(ops, kind, extra, dt):
             elif op == "C":
                 if last_k is None or a[0] != last_k:
                     return None, "com step %r does not follow a kepler step with the same argument" % a
-            else:
+            elif op != "F":
                 return None, "unexpected operator %s" % op
         return out, ""
     if kind == "wh3h":      # MERCURIUS / TRACE step functions: interaction = 1, jump = 2, kepler = 0 (com step: argument checked)
@@ -158,7 +175,7 @@ def canon(ops, kind, extra, dt):
             elif op == "HC":
                 if abs(F(a[0]) / fdt - 1) > F(1, 10 ** 12):
                     return None, "com step with argument %r" % a
-            elif op not in ("K", "I", "C", "J"):      # the Kepler step may use WHFast's solver internally
+            elif op not in ("K", "I", "C", "J", "F"):      # the Kepler step may use WHFast's solver internally
                 return None, "unexpected operator %s" % op
         return out, ""
     if kind == "janus":
@@ -290,6 +307,9 @@ def correspondence(ctx, libdir):
         if kind == "wh_lazy":       # the lazy corrector updates the velocities in line: no interaction_step call to trace
             model = [e for e in model if e[0] != "C"]
         model = [((True,) + tuple(e[1:])) if e[0] == "C" else e for e in model]
+        if kind == "wh_f":      # two legs of equal length; the coordinates are (re)computed at the start of each leg
+            half_ = len(model) // 2
+            model = [("F", F(0), F(0))] + model[:half_] + [("F", F(0), F(0))] + model[half_:]
         if kind == "eos_inner":
             whys = [same_word(seg, model) for seg in traced]
             why = next((w for w in whys if w), "") if traced else "no drift_shell0 call traced"
@@ -608,6 +628,38 @@ def controller_correspondence(ctx):
     ctx.extra["controller_records"] = {"ias15": n_ias, "ias15_rejections": nrej, "bs": len(cases) - n_ias, "bs_rejections": nbrej}
 
 
+def history_probes(ctx, libdir):
+    """BS with a user ODE (needs_nbody 0/1) -> every other integrator -> BS again -> the other integrator backwards, on ONE simulation
+    object, each in its own child process: nothing may crash, the ODE solution must stay accurate."""
+    others = ["whfast", "saba", "leapfrog", "mercurius", "ias15", "trace", "eos", "janus", "sei", "none"]
+    jobs = [(nb, o) for nb in (0, 1) for o in others]
+    def one(j):
+        try:
+            return vlib.run_py(libdir, os.path.join(HERE, "c01_history_probe.py"), list(j), timeout=300)
+        except subprocess.TimeoutExpired:
+            return None
+    with ThreadPoolExecutor(max_workers=vlib.JOBS) as ex:
+        res = list(ex.map(one, jobs))
+    for (nb, o), r in zip(jobs, res):
+        key = "history:bs-user-ode(needs_nbody=%d)->%s->bs" % (nb, o)
+        ctx.case(key=key)
+        if r is None:
+            ctx.violation(key, {"needs_nbody": nb, "integrator": o, "what": "timeout"}, True, "history probe hangs"); continue
+        if r.returncode < 0 or r.returncode >= 128:
+            ctx.violation(key, {"needs_nbody": nb, "integrator": o, "status": r.returncode, "stderr": r.stderr[-600:],
+                                "script": "tools/c01_history_probe.py %d %s" % (nb, o)}, True,
+                          "the library crashed (status %d) when a simulation with a BS user ODE was switched to %s" % (r.returncode, o))
+            continue
+        try:
+            d = json.loads(r.stdout.strip().splitlines()[-1])
+        except (ValueError, IndexError):
+            if o in ("sei", "none") and r.returncode != 0:
+                continue      # integrators that cannot run this system raise a Python exception: not a finding
+            ctx.violation(key, {"needs_nbody": nb, "integrator": o, "stdout": r.stdout[-300:], "stderr": r.stderr[-600:]}, True, "history probe failed"); continue
+        if not d["ok"] and o not in ("sei", "none"):
+            ctx.violation(key, d, True, "user ODE inaccurate after switching integrators on one simulation object")
+
+
 def search(ctx, libdir, only=None):
     args = [ctx.seed, ctx.tier] + ([only] if only else [])
     r = vlib.run_py(libdir, os.path.join(HERE, "c01_search.py"), args, timeout=3000)
@@ -659,6 +711,7 @@ def run(ctx):
     jerk_correspondence(ctx, libdir)
     ode_loop_correspondence(ctx)
     controller_correspondence(ctx)
+    history_probes(ctx, libdir)
     search(ctx, libdir)
     ctx.rule = ("proof: finite, exhaustive over the schemes listed in coq/C01/Props.v. correspondence: one gdb-traced run per "
                 "(integrator, type/kernel/corrector/phi0/phi1/n, step | step,step,synchronize, sign of dt); distinct by label. searcher: one "
